@@ -52,6 +52,14 @@ def _seeded():
     return [0]
 
 
+def _strx():
+    return 'x'
+
+
+def _tup0():
+    return (0,)
+
+
 def _digits(a, b):
     return a * 10 + b
 
@@ -66,7 +74,7 @@ def _keepfirst(d, v):
 
 
 INITS = {'int': int, 'float': float, 'half': _half, 'five': _five, 'str': str, 'list': list, 'tuple': tuple,
-         'dict': dict, 'odict': OrderedDict, 'seeded': _seeded}
+         'dict': dict, 'odict': OrderedDict, 'seeded': _seeded, 'strx': _strx, 'tup0': _tup0}
 OPS = {'iadd': operator.iadd, 'add': operator.add, 'digits': _digits, 'right': _right,
        'update': None, 'keepfirst': _keepfirst, 'extend': 'extend'}
 
@@ -322,13 +330,13 @@ def rand_row(rng):
         sp['init'] = rng.choice(list(INITS))
         sp['op'] = rng.choice(['iadd', 'iadd', 'add', 'right'] + (['digits'] if sp['init'] in ('int', 'float', 'half', 'five') else []))
     elif form == 'Sum':
-        sp['init'] = rng.choice(['int', 'float', 'half', 'five'])
+        sp['init'] = rng.choice(['int', 'float', 'half', 'five', 'strx'])
     elif form == 'Flatten':
-        sp['init'] = rng.choice(['list', 'list', 'tuple', 'int', 'str', 'seeded', 'lazy'])
+        sp['init'] = rng.choice(['list', 'list', 'tuple', 'int', 'str', 'seeded', 'strx', 'tup0', 'lazy'])
     elif form == 'Merge':
         sp['init'], sp['op'] = rng.choice([('dict', 'update'), ('odict', 'update'), ('dict', 'keepfirst'), ('list', 'extend')])
     elif form == 'flatten':
-        sp['init'] = rng.choice(['list', 'list', 'tuple', 'int', 'lazy'])
+        sp['init'] = rng.choice(['list', 'list', 'tuple', 'int', 'tup0', 'lazy'])
         sp['levels'] = rng.choice([1, 1, 2, 2, 3, 4] + ([0] if sub == 'T' else []))
         if sp['levels'] == 0 and sp['init'] == 'lazy':
             sp['init'] = 'list'
@@ -455,7 +463,8 @@ def main(tier, seed):
     check.assumptions += [
         'numbers are ints and exact multiples of 1/2 (float / Fraction); strings are "", "uv" and one-character strings',
         'ops: operator.iadd, operator.add, lambda a, b: a * 10 + b, lambda a, b: b; Merge ops: default "update", '
-        '"extend" (by name, on a list), a first-writer-wins callable; custom inits: lambda: 5, lambda: [0], lambda: Fraction(1, 2)',
+        '"extend" (by name, on a list), a first-writer-wins callable; custom inits (non-empty starts): lambda: 5, lambda: [0], '
+        "lambda: 'x', lambda: (0,), lambda: Fraction(1, 2)",
         'flatten(levels=0) only without a spec (documented domain is positive levels; with spec=... the code returns '
         'the un-specced target), negative levels not exercised; the subspec is T or one key lookup',
         'exceptions are compared by class (TypeError / ValueError / AttributeError / FoldError), never by message',
